@@ -198,15 +198,20 @@ impl RtpsStatefulWriter {
                         .len()
                         .div_ceil(self.data_max_size_serialized);
 
-                    for request_fragment_number in
-                        core::iter::once(nackfrag_submessage.fragment_number_state().base())
-                            .chain(nackfrag_submessage.fragment_number_state().set())
-                    {
+                    // The requested numbers (the base once, then the other members of the set)
+                    // are 1-based on the wire; fragment indices are 0-based
+                    let base = nackfrag_submessage.fragment_number_state().base();
+                    for request_fragment_number in core::iter::once(base).chain(
+                        nackfrag_submessage
+                            .fragment_number_state()
+                            .set()
+                            .filter(|n| *n != base),
+                    ) {
                         let request_fragment_number = request_fragment_number as usize;
-                        // Either send a DATAFRAG submessages or send a single DATA submessage
-                        if (request_fragment_number) < number_of_fragments
+                        if (1..=number_of_fragments).contains(&request_fragment_number)
                             && cache_change.kind == ChangeKind::Alive
                         {
+                            let request_fragment_number = request_fragment_number - 1;
                             let writer_id = self.guid.entity_id();
                             let reader_id = reader_proxy.remote_reader_guid().entity_id();
                             let data_frag = cache_change.as_data_frag_submessage(
